@@ -162,7 +162,21 @@ func (c *Ctx) renderKind(v ssa.Value, depth int) string {
 	case *ssa.Phi:
 		var kinds []string
 		for _, e := range x.Edges {
+			// the initial "" of a variable that is assigned a rendering before it is compared, and the
+			// loop-carried value itself, say nothing about the kind
+			if s, ok := constString(e); ok && s == "" {
+				continue
+			}
+			if e == ssa.Value(x) {
+				continue
+			}
+			if p2, ok := e.(*ssa.Phi); ok && phiOnlyOf(p2, x) {
+				continue
+			}
 			kinds = append(kinds, c.renderKind(e, depth+1))
+		}
+		if len(kinds) == 0 {
+			return ""
 		}
 		same := true
 		for _, k := range kinds {
@@ -212,17 +226,21 @@ func (c *Ctx) selectedKind(call *ssa.Call, callee *ssa.Function, depth int) stri
 	if !ok {
 		return ""
 	}
-	prm, ok := iff.Cond.(*ssa.Parameter)
-	if !ok {
-		return ""
-	}
-	idx := -1
-	for i, q := range callee.Params {
-		if q == prm {
-			idx = i
+	selName := ""
+	switch cnd := iff.Cond.(type) {
+	case *ssa.Parameter:
+		for i, q := range callee.Params {
+			if q == cnd && i < len(call.Common().Args) {
+				selName = call.Common().Args[i].Name()
+			}
+		}
+	case *ssa.UnOp:
+		// a flag captured by a closure: named like the variable of the enclosing function
+		if fv, ok := cnd.X.(*ssa.FreeVar); ok && cnd.Op == token.MUL {
+			selName = fv.Name()
 		}
 	}
-	if idx < 0 || idx >= len(call.Common().Args) {
+	if selName == "" {
 		return ""
 	}
 	arm := func(b *ssa.BasicBlock) string {
@@ -248,7 +266,7 @@ func (c *Ctx) selectedKind(call *ssa.Call, callee *ssa.Function, depth int) stri
 	if a == "" || b == "" {
 		return ""
 	}
-	return "sel(" + call.Common().Args[idx].Name() + ";" + a + ";" + b + ")"
+	return "sel(" + selName + ";" + a + ";" + b + ")"
 }
 
 func (c *Ctx) paramKind(p *ssa.Parameter, depth int) string {
@@ -436,3 +454,13 @@ func kindOr(k string) string {
 }
 
 var _ = token.NoPos
+
+// phiOnlyOf: p merges nothing but x itself and values that x already merges (a for.post copy of a loop-carried value).
+func phiOnlyOf(p, x *ssa.Phi) bool {
+	for _, e := range p.Edges {
+		if e != ssa.Value(x) {
+			return false
+		}
+	}
+	return true
+}
